@@ -179,6 +179,8 @@ func processFile(filePath string, ctxt *processors.Context, checkOnly bool) erro
 	}
 
 	scanner := bufio.NewScanner(parsedBytes)
+
+	scanner.Buffer(nil, utils.MaxLineLength)
 	scanner.Split(bufio.ScanLines)
 	lines := []string{}
 
